@@ -12,7 +12,7 @@ def errName : Err → String
   | .keyError => "raises:KeyError"
   | .indexError => "raises:IndexError"
   | .invalidOutput => "raises:InvalidInput"
-  | .unparseable => "unparseable-output"
+  | .argInBody => "arg-in-statement-list"
   | .unsupported => "unsupported"
 
 def errJ (e : Err) : Json := Json.mkObj [("error", Json.str (errName e))]
